@@ -6,7 +6,7 @@ rm -rf "$W"; mkdir -p "$W"
 rsync -a --exclude target --exclude .git /repo/ "$W/repo/"
 rsync -a /verif/harness/ "$W/harness/"
 sed -i "s#path = \"/repo/oxidize-pdf-core\"#path = \"$W/repo/oxidize-pdf-core\"#" "$W/harness/Cargo.toml"
-sed -i "s#target-dir = \"/verif/.build\"#target-dir = \"$W/tgt\"#" "$W/harness/.cargo/config.toml"
+sed -i "s#target-dir = \"../.build\"#target-dir = \"$W/tgt\"#" "$W/harness/.cargo/config.toml"
 cp /verif/known_findings.jsonl "$W/" 2>/dev/null || true
 mkdir -p "$W/replays" "$W/evidence"
 echo "$W ready"
